@@ -82,7 +82,7 @@ func (c *Ctx) step(st *State, fr *Frame, ins ssa.Instruction) []cont {
 		arr := c.NewRef(st, "arr")
 		el := x.Type().Underlying().(*types.Slice).Elem()
 		fam, sort := c.famElem(el)
-		c.SetArr(st, fam, Store(c.Arr(st, fam, sort), arr, ConstArray(arrayElem(sort), c.Reg.Zero(el))))
+		c.SetArr(st, fam, Store(c.Arr(st, fam, sort), arr, c.Reg.ZeroArray(arrayElem(sort), c.Reg.Zero(el))))
 		fr.regs[x] = c.Name(st, "slice", T(SSlice, "(mk_slice %s 0 %s %s)", arr.S, ln.S, cp.S))
 		return one(st, fr)
 	case *ssa.Slice:
@@ -162,10 +162,11 @@ func (c *Ctx) doAlloc(st *State, t types.Type, comment string) Value {
 			fl := &Loc{Kind: LocField, Base: r, Struct: t, Field: i, Type: si.ftypes[i], Root: si.ftypes[i]}
 			c.StoreLoc(st, fl, c.Reg.Zero(si.ftypes[i]))
 		}
+		st.freshObjs[r.S] = true
 		return r
 	case *types.Array:
 		fam, sort := c.famElem(u.Elem())
-		c.SetArr(st, fam, Store(c.Arr(st, fam, sort), r, ConstArray(arrayElem(sort), c.Reg.Zero(u.Elem()))))
+		c.SetArr(st, fam, Store(c.Arr(st, fam, sort), r, c.Reg.ZeroArray(arrayElem(sort), c.Reg.Zero(u.Elem()))))
 		return r
 	}
 	fam, sort := c.famCell(t)
@@ -447,7 +448,7 @@ func (c *Ctx) doIndexAddr(st *State, fr *Frame, x *ssa.IndexAddr) Value {
 	case *types.Slice:
 		s := c.term(fr, x.X, st)
 		c.Oblige(st, fr, x, "nopanic", "bounds", T(SBool, "(and (<= 0 %s) (< %s (sl_len %s)))", idx.S, idx.S, s.S), "index out of range")
-		return &Loc{Kind: LocElem, Base: T(SInt, "(sl_arr %s)", s.S), Idx: T(SInt, "(+ (sl_off %s) %s)", s.S, idx.S), Type: u.Elem(), Root: u.Elem()}
+		return &Loc{Kind: LocElem, Base: T(SInt, "(sl_arr %s)", s.S), Idx: T(SInt, "(sidx %s %s)", s.S, idx.S), Type: u.Elem(), Root: u.Elem()}
 	case *types.Pointer:
 		arr := u.Elem().Underlying().(*types.Array)
 		p := c.term(fr, x.X, st)
@@ -510,7 +511,9 @@ func (c *Ctx) mapLen(st *State, m Term, entry bool) Term {
 		l = c.Arr(st, famMapLen, ArraySort(SInt, SInt))
 	}
 	r := Select(l, m)
-	st.Assume(T(SBool, "(>= %s 0)", r.S))
+	if len(st.qbinders) == 0 {
+		st.Assume(T(SBool, "(>= %s 0)", r.S))
+	}
 	return r
 }
 
